@@ -93,6 +93,7 @@ fn dispatch(op: &str, fields: &[&str]) -> String
 		"lexd" => delta_ops::lexd(fields),
 		"delta" => delta_ops::delta(fields),
 		"dparse" => delta_ops::dparse(fields),
+		"dtokens" => delta_ops::dtokens(fields),
 		"fuzz" => delta_ops::fuzz(fields),
 		"ping" => "pong".to_string(),
 		_ => "bad-op".to_string(),
